@@ -12,6 +12,10 @@
 // tmplstruct.go adds structural facts about the Go text inside the templates
 // (func literals, returns, order of the safety-relevant statements).
 //
+// maporder.go classifies every map-iteration site by the PATTERN of its loop
+// body and context (set / count / append-then-sort / unknown), so that the
+// C17 obligation does not depend on where a loop lives.
+//
 // Only the standard library is used (go/ast, go/parser, go/types with an
 // in-process source importer, text/template/parse); no `go list`, no network.
 package main
@@ -42,7 +46,7 @@ import (
 // ---------------------------------------------------------------------------
 
 type exprSite struct{ file, action, wrapper, kind string }
-type mapRange struct{ file, fn, expr, kind string }
+type mapRange struct{ file, fn, expr, kind, pattern, detail string }
 type smWrite struct {
 	file, fn, literal  string
 	isComment, guarded bool
@@ -583,6 +587,8 @@ func (r *repo) scanGoPkg(p *goPkg, fx *facts) {
 			return true
 		})
 		seenRand := map[token.Pos]bool{}
+		// order-sensitivity of the iteration sites (maporder.go)
+		oc := &orderCtx{r: r, p: p, imports: imports, parents: parentMap(sf.ast)}
 		ast.Inspect(sf.ast, func(n ast.Node) bool {
 			switch x := n.(type) {
 			case *ast.RangeStmt:
@@ -595,9 +601,13 @@ func (r *repo) scanGoPkg(p *goPkg, fx *facts) {
 				}
 				switch m {
 				case isMap:
-					fx.mapRangeSites = append(fx.mapRangeSites, mapRange{sf.rel, enclosing(sf.ast, x.Pos()), r.text(x.X), "range"})
+					pat, det := oc.classifyRange(x, false)
+					fx.mapRangeSites = append(fx.mapRangeSites, mapRange{sf.rel, enclosing(sf.ast, x.Pos()), r.text(x.X), "range", pat, det})
 				case mapUnknown:
-					fx.mapRangeSites = append(fx.mapRangeSites, mapRange{sf.rel, enclosing(sf.ast, x.Pos()), "unknown: " + r.text(x.X), "unknown"})
+					// classified as if it were a map: a loop that fits a
+					// pattern is harmless whatever it ranges over
+					pat, det := oc.classifyRange(x, false)
+					fx.mapRangeSites = append(fx.mapRangeSites, mapRange{sf.rel, enclosing(sf.ast, x.Pos()), "unknown: " + r.text(x.X), "unknown", pat, det})
 				}
 			case *ast.SelectorExpr:
 				// (a) iteration methods of typeutil.Map / sync.Map
@@ -609,15 +619,16 @@ func (r *repo) scanGoPkg(p *goPkg, fx *facts) {
 					if sel := p.info.Selections[x]; sel != nil {
 						if name, ok := namedTypeName(sel.Recv()); ok {
 							if iterTypes[name] {
-								fx.mapRangeSites = append(fx.mapRangeSites, mapRange{sf.rel, enclosing(sf.ast, x.Pos()), r.text(node), "call"})
+								pat, det := oc.classifyKeysCall(node)
+								fx.mapRangeSites = append(fx.mapRangeSites, mapRange{sf.rel, enclosing(sf.ast, x.Pos()), r.text(node), "call", pat, det})
 							}
 						} else if typeMapness(sel.Recv()) == mapUnknown {
-							fx.mapRangeSites = append(fx.mapRangeSites, mapRange{sf.rel, enclosing(sf.ast, x.Pos()), "unknown: " + r.text(node), "unknown"})
+							fx.mapRangeSites = append(fx.mapRangeSites, mapRange{sf.rel, enclosing(sf.ast, x.Pos()), "unknown: " + r.text(node), "unknown", "unknown:" + r.text(node), "receiver type not resolved"})
 						}
 					} else if _, isPkg := p.info.Uses[x.Sel]; !isPkg {
 						// neither a resolved method/field selection nor a
 						// resolved qualified identifier: receiver type unknown
-						fx.mapRangeSites = append(fx.mapRangeSites, mapRange{sf.rel, enclosing(sf.ast, x.Pos()), "unknown: " + r.text(node), "unknown"})
+						fx.mapRangeSites = append(fx.mapRangeSites, mapRange{sf.rel, enclosing(sf.ast, x.Pos()), "unknown: " + r.text(node), "unknown", "unknown:" + r.text(node), "receiver type not resolved"})
 					}
 				}
 				// (b) random / time / pid sources
@@ -1941,7 +1952,7 @@ func render(fx *facts, read []string) string {
 
 	items = nil
 	for _, s := range fx.mapRangeSites {
-		items = append(items, fmt.Sprintf("{ file := %s, func := %s, expr := %s, kind := %s }", leanStr(s.file), leanStr(s.fn), leanStr(s.expr), leanStr(s.kind)))
+		items = append(items, fmt.Sprintf("{ file := %s, func := %s, expr := %s, kind := %s,\n    pattern := %s, detail := %s }", leanStr(s.file), leanStr(s.fn), leanStr(s.expr), leanStr(s.kind), leanStr(s.pattern), leanStr(s.detail)))
 	}
 	sort.Strings(items)
 	b.WriteString("/-- Iterations over maps (range statements; Keys/Iterate/Range of typeutil.Map and sync.Map). -/\n")
